@@ -45,6 +45,9 @@ EXTRA_STR_KEYS = ["zzz", "extra", "a2", "_x", "it's", "new\nline", "class", ""]
 ATTR_NAMES = ["a", "b", "c", "d", "e", "xy", "_p", "_q", "f1"]
 NT_NAMES = ["a", "b", "c", "d", "e", "xy", "f1"]
 TD_NAMES = ["a", "b", "c", "d", "e", "class", "a-b", "in"]
+# TypedDict keys (functional syntax) that differ only in characters outside [0-9A-Za-z_]: distinct keys whose
+# "sanitised" spellings coincide -- anything in the generators that derives an identifier from the key must keep them apart
+TD_COLLIDING = [("a-b", "a_b"), ("x.id", "x id"), ("x-id", "x.id"), ("retry-after", "retry_after"), ("in", "in ")]
 EXPLICIT_ALIASES = ["al_a", "al_b", "al_c", "al_d"]
 
 NEUTRAL = {"oid": None, "rename": None, "omit": None, "sh": None, "uh": None}
@@ -254,11 +257,23 @@ class HGen:
         r = self.rng
         names = {"attrs": ATTR_NAMES, "dc": ATTR_NAMES, "nt": NT_NAMES, "td": TD_NAMES}[kind]
         names = r.sample(names, r.randint(1 if kind == "nt" else 0, 5 if self.big else 4))
+        forced = {}
+        if kind == "td" and r.random() < 0.3:
+            # a colliding pair of keys with DIFFERENT types (so that swapping their handlers is visible)
+            pair = list(r.choice(TD_COLLIDING))
+            r.shuffle(pair)
+            t1, t2 = r.choice([("int", "str"), ("str", "int"), (("list", "int"), ("list", "str")), ("int", ("opt", "str")),
+                               ("bytes", "int")])
+            forced = {pair[0]: t1, pair[1]: t2}
+            names = [n for n in names if n not in pair][:2] + pair
+            r.shuffle(names)
         fields = []
         used_alias = set()
         for n in names:
             untyped = kind == "attrs" and r.random() < 0.08
             ty = None if untyped else self.field_type(w, ci, kind)
+            if n in forced:
+                ty = forced[n]
             alias = n
             if kind == "attrs":
                 alias = n.lstrip("_")
@@ -590,6 +605,14 @@ class HookSession:
 
     def model_consistent(self, ci):
         return self.drv.ask("CONSISTENT %s %d" % (gworld_sx(self.g), ci))
+
+    def model_conf(self, ty, x_abs):
+        """do the hypotheses of the nested round-trip theorem (C09_roundtrip_nested) hold for this value?"""
+        return self.drv.ask("HOOKCONF %s %d %s %s" % (gworld_sx(self.g), FUEL, terms.ty_sx(ty), terms.obj_sx(norm_obj(x_abs))))
+
+    def model_hits(self, ty, p_abs, g=None):
+        """the model's `hits`: some forbidding class position of the payload (any depth) has an extra key"""
+        return self.drv.ask("HOOKHITS %s %d %s %s" % (gworld_sx(g or self.g), FUEL, terms.ty_sx(ty), terms.obj_sx(norm_obj(p_abs))))
 
 
 # --------------------------------------------------------------------------------------------- error views
